@@ -8,7 +8,7 @@ CFG = dict(
          "step. Schedules per case: `seq` (no gates: 1-4 Stop calls racing each other and the source's own termination, 1-3 start/stop rounds on "
          "the same object, optional writing), `rnd` (every gate site gated, a seeded scheduler picks which parked goroutine moves next; 1-4 Stops, "
          "requests, self-termination by error block), `stopAt i` (Stop issued while Start is parked between two of its steps), `reuse` (Stop parked "
-         "before its wait across a restart: it must return when released), `selfW` (source ends by itself while writing), `udpFail`/`udpBusy` (failed Abaco Start), `startRunFail` (StartRun of the scripted source fails "
+         "before its wait across a restart: it must return when released), `selfW` (source ends by itself while writing - active or active and PAUSED -, then Stop, then a restart; what is left of the writing is read from the reported state and the installed writers, not through WritingIsActive), `udpFail`/`udpBusy` (failed Abaco Start), `startRunFail` (StartRun of the scripted source fails "
          "1-2 times AFTER RunDoneActivate, then a Start succeeds on the same object, optionally a request, then 1-2 Stops). `stopDecided` (a Stop parked INSIDE its lock section "
          "after reading Active, site stop.onActive, while the source ends by itself; then a Start on the same object). `rpc` (the life cycle through the real SourceControl.Start / "
          "SourceControl.Stop on the sources SourceControl owns - ErroringSource parked before its error block so the schedule picks when it ends by itself, "
@@ -70,6 +70,8 @@ THEOREMS = [
     ("DastardV.Props.C10", "DastardV.C10.C10_one_acquisition_step"),
     ("DastardV.Props.C10", "DastardV.C10.C10_request_keeps_step"),
     ("DastardV.Props.C10", "DastardV.C10.C10_self_close_once"),
+    ("DastardV.Props.C10", "DastardV.C10.C10_inactive_not_writing"),
+    ("DastardV.Props.C10", "DastardV.C10.C10_inactive_no_loop"),
     ("DastardV.Props.C10", "DastardV.C10.C10_valid_configure_clears_error"),
     ("DastardV.Props.C10", "DastardV.C10.C10_rejected_configure_blocks_start"),
     ("DastardV.Props.C10", "DastardV.C10.C10_stop_decision_atomic"),
@@ -102,6 +104,7 @@ HOOKS = [
     "3ce7ba1 VerifLoopSource.VerifFailStartRun, VerifRunDoneState",
     "95def7f stop.onActive site (inside Stop's locked decision)",
     "79a6d14 asm.spawn / asm.send / asm.close sites in AbacoSource.getNextBlock (uses the C17 hook VerifC17Abaco for the scripted producer)",
+    "715da7f VerifWritersInstalled",
     "7938c7e VerifStatusLengths; e4e4126 VerifSetCringeGlobalsPath (the Lancero configure histories also use the C17 hooks VerifC17Sources / VerifC17Lancero)",
     "75f5771, dd9a4df sc.start.enter/.refused/.failed, sc.flagOn, sc.stop.enter/.notActive, sc.refreshed sites; VerifActiveSource",
 ]
